@@ -379,3 +379,32 @@ def parts(tier: str) -> List[Part]:  # type: ignore[no-redef]
 
 def run_case(case: Dict[str, Any]) -> Outcome:  # type: ignore[no-redef]
     return run_pool_shutdown(case) if case.get("pool_shutdown") else _run_core2(case)
+
+
+# ---------------------------------------------------------------- sync functions through a real thread pool, all outcomes
+#
+# Same harness as C07's `sync_pool` part (real ThreadPoolExecutor, completion detected with barrier jobs, no wall-clock verdict): an
+# execution that never completes (an outcome that cannot travel from the pool's future into the loop's) is a message whose acknowledge
+# callback is never called although its task function has finished.
+
+from vt.props import c07 as _c07
+
+_parts_core2b, _run_core2b = parts, run_case
+
+
+def parts(tier: str) -> List[Part]:  # type: ignore[no-redef]
+    n = 600 if tier == "thorough" else 60
+    return _parts_core2b(tier) + [Part("sync_pool", "given", shards=2, examples=n, strategy=_c07.pool_cases, soft_deadline_s=900 if tier == "thorough" else 100)]
+
+
+def run_case(case: Dict[str, Any]) -> Outcome:  # type: ignore[no-redef]
+    if not case.get("pool"):
+        return _run_core2b(case)
+    inner = _c07.run_pool_case(case)
+    out = Outcome()
+    out.clauses_checked = ["C02.a"]
+    for v in inner.violations:
+        if "never completed" in v.detail:
+            out.add("C02.a", v.detail + " - its message is never acknowledged (0 acks) although the task function finished")
+    out.nontrivial, out.classes, out.trace = inner.nontrivial, inner.classes, inner.trace
+    return out
